@@ -6,6 +6,7 @@ package dev
 import (
 	"errors"
 	"io"
+	"sync"
 	"syscall"
 
 	"a0verif/plan/core"
@@ -149,4 +150,26 @@ func (x *Dev) Read(p []byte) (int, error) {
 		x.Stalls++
 	}
 	return k, ErrOf(ek)
+}
+
+// Safe serialises access to a device that goroutines the simulator does not schedule
+// may read concurrently (helper goroutines the code under test starts itself).
+type Safe struct {
+	mu sync.Mutex
+	D  *Dev
+}
+
+func NewSafe() *Safe { return &Safe{D: New(nil)} }
+
+func (s *Safe) Read(p []byte) (int, error) {
+	s.mu.Lock()
+	defer s.mu.Unlock()
+	return s.D.Read(p)
+}
+
+// DeliveredCopy returns what the device has handed out so far.
+func (s *Safe) DeliveredCopy() []byte {
+	s.mu.Lock()
+	defer s.mu.Unlock()
+	return append([]byte(nil), s.D.Delivered...)
 }
